@@ -254,6 +254,18 @@ def real_signal(ctx):
             import contextlib
             import io
             obs.entered = obs.exited = 1
+        # ... and every other remaining trial several observers are attached at once (a list / composite_progress of two, a nested composite):
+        # the interrupt passes through the composite's __exit__ on its way out of run
+        obs2 = Obs()
+        pform = "single" if use_console or trial % 2 == 0 else ("list", "composite_progress", "nested composite")[(trial // 2) % 3]
+        ctx.count("real_signal_progress_form", "console" if use_console else pform)
+        if pform == "single":
+            prog_arg = Progress(lambda: obs)
+            obs2.entered = obs2.exited = 1
+        else:
+            from uberjob.progress import composite_progress
+            prog_arg = ([Progress(lambda: obs), Progress(lambda: obs2)] if pform == "list" else composite_progress(Progress(lambda: obs), Progress(lambda: obs2))
+                        if pform == "composite_progress" else composite_progress(composite_progress(Progress(lambda: obs)), Progress(lambda: obs2)))
         before = set(threading.enumerate())
         outcome = None
         tstop = []
@@ -276,7 +288,7 @@ def real_signal(ctx):
                     with contextlib.redirect_stdout(io.StringIO()), contextlib.redirect_stderr(io.StringIO()):
                         uberjob.run(p, output=calls[-1] if chain else calls, max_workers=workers, progress=console_progress, **run_kw)
                 else:
-                    uberjob.run(p, output=calls[-1] if chain else calls, max_workers=workers, progress=Progress(lambda: obs), **run_kw)
+                    uberjob.run(p, output=calls[-1] if chain else calls, max_workers=workers, progress=prog_arg, **run_kw)
                 outcome = "returned"
             except KeyboardInterrupt:
                 outcome = "interrupted"
@@ -292,7 +304,7 @@ def real_signal(ctx):
         with lock:
             snap = list(log)
         case = {"ncalls": ncalls, "workers": workers, "k": k, "outcome": outcome, "interrupting_call_lasts_seconds": long_call, "call_functions_are": fkind,
-                "progress": "console_progress" if use_console else "recording observer", "log": [(a, b) for a, b, _ in snap],
+                "progress": "console_progress" if use_console else "recording observer" if pform == "single" else "two recording observers (%s)" % pform, "log": [(a, b) for a, b, _ in snap],
                 "log_index_when_stop_was_set": tstop}
         starts = [i for kind, i, _ in snap if kind == "start"]
         ends = [i for kind, i, _ in snap if kind == "end"]
@@ -324,8 +336,8 @@ def real_signal(ctx):
             if len(late) > workers:
                 ctx.fail("signal:late-starts", "%d of %d waiting calls were started more than 1 s after Ctrl-C (scheduler=%r, max_errors=%r, max_workers=%d)"
                          % (len(late), ncalls, backlog[0], backlog[1], workers), dict(case, scheduler=backlog[0], max_errors=backlog[1]))
-        if obs.entered != 1 or obs.exited != 1:
-            ctx.fail("signal:observer", "observer entered %d / exited %d times" % (obs.entered, obs.exited), case)
+        if obs.entered != 1 or obs.exited != 1 or obs2.entered != 1 or obs2.exited != 1:
+            ctx.fail("signal:observer", "observer entered %d / exited %d times%s" % (obs.entered, obs.exited, "" if pform == "single" else "; the second observer %d / %d" % (obs2.entered, obs2.exited)), case)
         deadline = time.time() + 2
         while time.time() < deadline and [t for t in threading.enumerate() if t not in before]:
             time.sleep(0.005)
